@@ -135,8 +135,11 @@ class ResultParameter(Parameter):
         if value.is_finished:
             self.output_type.clean(value.result, program, lineno)
             return value
-        elif value.output is not None:
-            if hasattr(self.output_type, "accepts"):
+        else:
+            if value.output is None:
+                # The command declares no output at all, so it cannot provide the required kind of result
+                is_valid = False
+            elif hasattr(self.output_type, "accepts"):
                 is_valid = self.output_type.accepts(value.output.__class__)
             else:
                 is_valid = issubclass(
